@@ -449,6 +449,23 @@ func ReduceStepsMetadata(layout Layout,
 }
 
 /*
+verifyStepsHaveLinks returns an error if there is a step in the passed layout
+without any link metadata. A step with a threshold of zero (or less) passes the
+threshold verification without links, but can neither be reduced nor be used to
+verify artifact rules.
+*/
+func verifyStepsHaveLinks(layout Layout,
+	stepsMetadata map[string]map[string]Metadata) error {
+	for _, step := range layout.Steps {
+		if len(stepsMetadata[step.Name]) < 1 {
+			return fmt.Errorf("no verified link metadata found for step '%s'",
+				step.Name)
+		}
+	}
+	return nil
+}
+
+/*
 VerifyStepCommandAlignment (soft) verifies that for each step of the passed
 layout the command executed, as per the passed link, matches the expected
 command, as per the layout.  Soft verification means that, in case a command
@@ -991,6 +1008,11 @@ func InTotoVerify(layoutEnv Metadata, layoutKeys map[string]Key,
 		return nil, err
 	}
 
+	// All further processing needs at least one verified link per step
+	if err := verifyStepsHaveLinks(layout, stepsSublayoutVerified); err != nil {
+		return nil, err
+	}
+
 	// Verify command alignment (WARNING only)
 	VerifyStepCommandAlignment(layout, stepsSublayoutVerified)
 
@@ -1128,6 +1150,11 @@ func InTotoVerifyWithDirectory(layoutEnv Metadata, layoutKeys map[string]Key,
 	stepsSublayoutVerified, err := VerifySublayouts(layout,
 		stepsMetadataVerified, linkDir, intermediatePems, lineNormalization)
 	if err != nil {
+		return nil, err
+	}
+
+	// All further processing needs at least one verified link per step
+	if err := verifyStepsHaveLinks(layout, stepsSublayoutVerified); err != nil {
 		return nil, err
 	}
 
